@@ -103,6 +103,34 @@ func init() {
 				g.onCall = func(g *gen, cc *ssa.CallCommon, callee *ssa.Function, args []Val, pos token.Pos) {
 					nodeArg, fmtArg, ok := isWarnFunc(callee)
 					if !ok {
+						// a helper that positions a diagnostic at one of its parameters assumes that parameter to be a node of the
+						// tree (nodeRequires); every call site shows it
+						if callee != nil && c.e.inRepo(callee) && !(walkerEntry[callee.Name()] && callee.Signature.Recv() != nil) {
+							for j, p := range callee.Params {
+								if !c.e.needNode[privKey{callee, j}] || j >= len(args) || p.Name() == "" || p.Name() == "_" {
+									continue
+								}
+								n := args[j]
+								g.declareFun("private", []string{"Int"}, "Bool")
+								g.declTnode()
+								v := n.T
+								var nonnil string
+								if n.Sort == "Iface" {
+									v = app("i_val", n.T)
+									nonnil = and(not(eq(app("i_tag", n.T), "0")), not(eq(v, "0")))
+								} else if n.Sort == "Int" {
+									nonnil = not(eq(v, "0"))
+								} else {
+									continue
+								}
+								claim := and(nonnil, or(app("tnode", v), app("private", v)))
+								site := g.label(pos, callee.Name(), "call")
+								if len(site) > 60 {
+									site = site[:60] + "…"
+								}
+								g.oblige("call/"+callee.Name()+"/pre", "warn-node-"+p.Name()+": "+site, claim, pos, nil)
+							}
+						}
 						return
 					}
 					nsite++
@@ -114,8 +142,11 @@ func init() {
 						n := args[nodeArg]
 						if n.Sort == "Iface" {
 							g.declareFun("private", []string{"Int"}, "Bool")
+							g.declTnode()
+							// a node of the parsed tree or a private copy of one: neither a node the checker built itself nor the
+							// all-zero sentinel that astcast.ToX returns on a type mismatch (which was alive at entry but has no position)
 							claim := and(not(eq(app("i_tag", n.T), "0")), not(eq(app("i_val", n.T), "0")),
-								or(g.alive0Term(app("i_val", n.T)), app("private", app("i_val", n.T))))
+								or(app("tnode", app("i_val", n.T)), app("private", app("i_val", n.T))))
 							g.oblige("warn", "position node is a non-nil node of the analysed tree: "+site, claim, pos, nil)
 						}
 					}
